@@ -37,8 +37,11 @@ type GNMIDevice struct {
 	// FailAt: fail the Set call with this 1-based ordinal; 0 = never
 	FailAt int
 	calls  int
-	// Chunk: maximum number of updates per reported notification (0 = no limit)
+	// Chunk: maximum number of updates per reported notification (0 = no limit, -1 = one notification per parent node)
 	Chunk int
+	// Prefix: report with a notification prefix (the longest common path prefix of the notification's updates and
+	// deletes, at least one element) and paths relative to it, as devices do
+	Prefix bool
 	// Blobs: with the JSON encodings report one JSON object per top-level container instead of scalar values per leaf
 	Blobs bool
 	// ConfigOnly: leave state nodes out of Get(CONFIG) answers (always done) and of subscriptions (if set)
@@ -492,7 +495,24 @@ func (d *GNMIDevice) notificationsFor(c Conf, under []IPath, enc gnmi.Encoding, 
 	}
 	var res []*gnmi.Notification
 	chunk := d.Chunk
-	if chunk <= 0 {
+	if chunk < 0 {
+		// one notification per parent node: all its updates are siblings (with Prefix: the parent is the prefix)
+		var order []string
+		groups := map[string][]*gnmi.Update{}
+		for _, u := range upds {
+			el := u.GetPath().GetElem()
+			k := (&gnmi.Path{Elem: el[:len(el)-1]}).String()
+			if _, ok := groups[k]; !ok {
+				order = append(order, k)
+			}
+			groups[k] = append(groups[k], u)
+		}
+		for _, k := range order {
+			res = append(res, &gnmi.Notification{Timestamp: time.Now().UnixNano(), Update: groups[k]})
+		}
+		return res
+	}
+	if chunk == 0 {
 		chunk = len(upds) + 1
 	}
 	for len(upds) > 0 {
@@ -519,6 +539,11 @@ func (d *GNMIDevice) Get(ctx context.Context, req *gnmi.GetRequest) (*gnmi.GetRe
 	ns := d.notificationsFor(d.Config, under, req.GetEncoding(), req.GetType() == gnmi.GetRequest_CONFIG)
 	d.getCalls++
 	d.getNotifs += len(ns)
+	if d.Prefix {
+		for i := range ns {
+			ns[i] = withPrefix(ns[i])
+		}
+	}
 	return &gnmi.GetResponse{Notification: ns}, nil
 }
 
@@ -553,6 +578,9 @@ func (d *GNMIDevice) Subscribe(stream gnmi.GNMI_SubscribeServer) error {
 		d.mu.Unlock()
 	}()
 	send := func(n *gnmi.Notification) error {
+		if d.Prefix {
+			n = withPrefix(n)
+		}
 		err := stream.Send(&gnmi.SubscribeResponse{Response: &gnmi.SubscribeResponse_Update{Update: n}})
 		d.mu.Lock()
 		d.sent++
@@ -580,6 +608,58 @@ func (d *GNMIDevice) Subscribe(stream gnmi.GNMI_SubscribeServer) error {
 			}
 		}
 	}
+}
+
+// withPrefix moves the longest common prefix of all paths of the notification into its prefix field.
+func withPrefix(n *gnmi.Notification) *gnmi.Notification {
+	var all []*gnmi.Path
+	for _, u := range n.GetUpdate() {
+		all = append(all, u.GetPath())
+	}
+	all = append(all, n.GetDelete()...)
+	if len(all) == 0 {
+		return n
+	}
+	same := func(a, b *gnmi.PathElem) bool {
+		if a.GetName() != b.GetName() || len(a.GetKey()) != len(b.GetKey()) {
+			return false
+		}
+		for k, v := range a.GetKey() {
+			if bv, ok := b.GetKey()[k]; !ok || bv != v {
+				return false
+			}
+		}
+		return true
+	}
+	l := len(all[0].GetElem())
+	for _, p := range all[1:] {
+		if len(p.GetElem()) < l {
+			l = len(p.GetElem())
+		}
+		for i := 0; i < l; i++ {
+			if !same(all[0].GetElem()[i], p.GetElem()[i]) {
+				l = i
+				break
+			}
+		}
+	}
+	// keep at least one relative element on every path
+	for _, p := range all {
+		if len(p.GetElem())-1 < l {
+			l = len(p.GetElem()) - 1
+		}
+	}
+	if l <= 0 {
+		return n
+	}
+	r := &gnmi.Notification{Timestamp: n.GetTimestamp(), Prefix: &gnmi.Path{Elem: all[0].GetElem()[:l]}}
+	for _, u := range n.GetUpdate() {
+		r.Update = append(r.Update, &gnmi.Update{Path: &gnmi.Path{Elem: u.GetPath().GetElem()[l:]}, Val: u.GetVal()})
+	}
+	for _, dp := range n.GetDelete() {
+		r.Delete = append(r.Delete, &gnmi.Path{Elem: dp.GetElem()[l:]})
+	}
+	return r
 }
 
 // Apply changes the device configuration (deletes, then updates) and reports the change on every
